@@ -744,7 +744,7 @@ class PixelAlgorithms(AccessorBase):
             output_core_dims=[["time"]],
             keep_attrs=True,
             dask="parallelized",
-            dask_gufunc_kwargs={"meta": self._obj.data},
+            output_dtypes=["float32"],
         )
 
 
